@@ -57,7 +57,7 @@ def has {V : Type} (l : Layer V) (k : Key) : Bool := (get? l k).isSome
 def erase {V : Type} (l : Layer V) (k : Key) : Layer V := l.filter (fun p => !decide (p.1 = k))
 
 /-- `dsk[k] = v` -/
-def set {V : Type} (l : Layer V) (k : Key) (v : Node V) : Layer V := (k, v) :: erase l k
+def assign {V : Type} (l : Layer V) (k : Key) (v : Node V) : Layer V := (k, v) :: erase l k
 
 /-- the value the scheduler returns for key `k` of graph `l` (`fuel` bounds alias chains) -/
 def evalKey {V : Type} : Nat → Layer V → Key → Option V
@@ -139,8 +139,8 @@ def step {V : Type} (fg : FromGraph V) (dsk : Layer V) (b : BlockId) : Except Er
       if (⟨fg.name, b⟩ : Key) = lk then .ok dsk
       else match get? dsk lk with
         | none => .error .keyError
-        | some (.data v) => .ok (erase (set dsk ⟨fg.name, b⟩ (.data v)) lk)
-        | some _ => .ok (set dsk ⟨fg.name, b⟩ (.alias lk))
+        | some (.data v) => .ok (erase (assign dsk ⟨fg.name, b⟩ (.data v)) lk)
+        | some _ => .ok (assign dsk ⟨fg.name, b⟩ (.alias lk))
 
 /-- the loop `for block_id in product(...)` with its running dict `dsk` -/
 def run {V : Type} (fg : FromGraph V) : List BlockId → Layer V → Except Err (Layer V)
